@@ -16,6 +16,8 @@ type Emit<'a> = &'a mut dyn FnMut(Scenario) -> bool;
 fn run(input: Vec<u8>) -> Scenario { Scenario { mode: Mode::Run, input, whole: false, base: None } }
 fn cat(parts: &[&[u8]]) -> Vec<u8> { parts.concat() }
 
+/// the upper half of the seed carries the scale (thorough tier: 10): larger exhaustive bounds where marked
+fn scale_of(seed: u64) -> u64 { (seed >> 32).max(1) }
 struct Rng(u64);
 impl Rng {
     fn next(&mut self) -> u64 { self.0 ^= self.0 << 13; self.0 ^= self.0 >> 7; self.0 ^= self.0 << 17; self.0 }
@@ -87,7 +89,15 @@ const UNITS: &[&str] = &[
 ];
 /// every program message of 1..=3 units from a pool of 30 (relative, absolute, common, faulty, empty), alone and after
 /// / before a second message; with and without a trailing ';'
-fn g_compound(_seed: u64, emit: Emit) {
+fn g_compound(seed: u64, emit: Emit) {
+    if scale_of(seed) > 1 {
+        // thorough: every message of 4 units from the first 14 pool entries (38 416)
+        let k = 14;
+        for a in 0..k { for b in 0..k { for c in 0..k { for d in 0..k {
+            let m = format!("{};{};{};{}\n", UNITS[a], UNITS[b], UNITS[c], UNITS[d]).into_bytes();
+            if !emit(run(m)) { return; }
+        } } } }
+    }
     let n = UNITS.len();
     for a in 0..n { for b in 0..=n { for c in 0..=n {
         if b == n && c != n { continue; }
@@ -356,6 +366,8 @@ const STREAMS: &[&str] = &[
 /// read per buffer fill (metamorphic: the reference is the real code itself), so that only the dependence on the
 /// chunking counts.
 fn g_chunking(seed: u64, emit: Emit) {
+    // thorough: all compositions for streams of up to 16 bytes
+    let all_upto = if scale_of(seed) > 1 { 16 } else { 12 };
     let mut rng = Rng(seed.wrapping_mul(0x2545_f491_4f6c_dd1d) | 1);
     for s in STREAMS {
         let input = s.as_bytes().to_vec();
@@ -363,7 +375,7 @@ fn g_chunking(seed: u64, emit: Emit) {
         for n in [4usize, 5, 8, 10, 16, 21, 32, 43, 64] {
             let base = Scenario { mode: Mode::Process { n, cuts: vec![], yields: 0, fail_at: None }, input: input.clone(), whole: false, base: None };
             let mut cutsets: Vec<Vec<usize>> = vec![(1..=l).collect()];
-            if l <= 12 { for mask in 0..(1u32 << (l - 1)) { cutsets.push((1..l).filter(|i| (mask >> (i - 1)) & 1 == 1).collect()); } }
+            if l <= all_upto { for mask in 0..(1u32 << (l - 1)) { cutsets.push((1..l).filter(|i| (mask >> (i - 1)) & 1 == 1).collect()); } }
             else {
                 for i in 1..l { cutsets.push(vec![i]); }
                 for step in 2..=9usize { cutsets.push((1..=l / step).map(|i| i * step).collect()); }
@@ -396,13 +408,17 @@ const PAYLOAD: &[&[u8]] = &[b"a", b";", b",", b":", b"#", b"'", b"\"", b" ", b"\
 /// or in a relative unit behind a compound unit, followed by a further unit and a further message; given to run
 /// whole, and streamed through process (N = 64) with a read boundary at every position. Reference: ONE run over the
 /// whole stream.
-fn g_containers(_seed: u64, emit: Emit) {
+fn g_containers(seed: u64, emit: Emit) {
     let n = PAYLOAD.len();
-    for a in 0..n { for b in 0..=n { for c in 0..=n {
+    // thorough: payloads of up to 4 bytes
+    let dmax = if scale_of(seed) > 1 { n } else { 0 };
+    for a in 0..n { for b in 0..=n { for c in 0..=n { for d in 0..=dmax {
         if b == n && c != n { continue; }
+        if c == n && d != dmax && dmax > 0 { continue; }
         let mut p: Vec<u8> = PAYLOAD[a].to_vec();
         if b < n { p.extend(PAYLOAD[b]); }
         if c < n { p.extend(PAYLOAD[c]); }
+        if dmax > 0 && d < n { p.extend(PAYLOAD[d]); }
         let l = p.len().to_string();
         let mut msgs: Vec<Vec<u8>> = vec![];
         if !p.contains(&b'\'') { msgs.push(cat(&[b"DISP:TEXT '", &p, b"';TEXT?\nLEV?\n"])); msgs.push(cat(&[b"*RST;MEAS:TRI? 1,'", &p, b"',ON;:LEV?\n"])); }
@@ -423,7 +439,7 @@ fn g_containers(_seed: u64, emit: Emit) {
                 if !emit(Scenario { mode: Mode::Process { n: 64, cuts, yields: 0, fail_at: None }, input: m.clone(), whole: true, base: None }) { return; }
             }
         }
-    } } }
+    } } } }
 }
 
 // ---------------------------------------------------------------- C09
@@ -452,11 +468,13 @@ fn sequences(pool: &[&str], max_len: usize, tail: &str, emit: Emit) -> bool {
 /// header in front of further units), and every sequence of 1..=9 operations from {undefined header, handler error,
 /// SYSTem:ERRor?, SYSTem:ERRor:COUNt?} followed by a complete drain; every standard error number raised by a handler
 /// and read back (number and description)
-fn g_queue(_seed: u64, emit0: Emit) {
+fn g_queue(seed: u64, emit0: Emit) {
+    let deep = scale_of(seed) > 1;
     // every sequence on the logging device (order of reports) and on the device that owns the crate's queue directly
     let emit: Emit = &mut |sc: Scenario| -> bool { let input = sc.input.clone(); emit0(sc) && emit0(Scenario { mode: Mode::RunRaw, input, whole: false, base: None }) };
     if !sequences(QOPS, 4, "", emit) { return; }
-    if !sequences(QATOMS, 9, DRAIN, emit) { return; }
+    // thorough: sequences of up to 10 operations (1 398 100)
+    if !sequences(QATOMS, if deep { 10 } else { 9 }, DRAIN, emit) { return; }
     for n in -420i32..=60 {
         if !emit(run(format!("ERR:RAIS {n};:SYST:ERR:COUN?;:SYST:ERR?;:SYST:ERR?\n").into_bytes())) { return; }
     }
@@ -563,13 +581,16 @@ const TAILS: &[&[u8]] = &[b"", b"\n", b"x", b"LEV?\n", b"'", b"\"", b";", b"\xff
 /// 51 unit texts (accepted, rejected, and ending inside a string / block / number / header), each cut at every byte
 /// position and each continued by 20 tails: the unconsumed remainder, the verdict (executed / one error / incomplete)
 /// and the calls must be those of the specification, which depend only on the consumed bytes
-fn g_finality(_seed: u64, emit: Emit) {
+fn g_finality(seed: u64, emit: Emit) {
+    let deep = scale_of(seed) > 1;
     for b in FINAL_BASE {
         let full = b.as_bytes();
         for cut in 0..=full.len() {
             for t in TAILS {
-                if cut < full.len() && !t.is_empty() && t != b"\n" { continue; }
+                // thorough: every tail (and every pair of tails) behind every cut, not only behind the complete text
+                if !deep && cut < full.len() && !t.is_empty() && t != b"\n" { continue; }
                 if !emit(run(cat(&[&full[..cut], t]))) { return; }
+                if deep { for t2 in TAILS { if !emit(run(cat(&[&full[..cut], t, t2]))) { return; } } }
             }
         }
     }
@@ -579,7 +600,7 @@ pub const FAMILIES: &[Family] = &[
     Family { name: "headers", props: &["C01"], kinds: &["handler", "error", "panic", "hang"], gen: g_headers,
         bound: "interface T2 (43 declarations + 3 requested standard commands): every allowed spelling x 3 letter cases x relative/absolute; per level every cut between short and long form, two extensions, level dropped / doubled / appended; query mark toggled; 8 undeclared standard headers" },
     Family { name: "compound", props: &["C02"], kinds: &["handler", "flush", "error", "panic", "hang"], gen: g_compound,
-        bound: "every message of 1..=3 units from a pool of 30 (27 930 messages), the 1- and 2-unit ones also after 5 different preceding messages and with a trailing ';'" },
+        bound: "every message of 1..=3 units from a pool of 30 (27 930 messages), the 1- and 2-unit ones also after 5 different preceding messages and with a trailing ';'; thorough tier: also every message of 4 units from 14 of them" },
     Family { name: "args", props: &["C03"], kinds: &["args", "handler", "error", "panic", "hang"], gen: g_args,
         bound: "4 single-integer handlers x 278 literals; 6 multi-parameter patterns x 278 x 5; 22 boolean, 14 string, 12 block, 33 real literals; parameter counts 0..=12 for all 46 declarations" },
     Family { name: "responses", props: &["C04"], kinds: &["response", "flush", "writer", "panic", "hang"], gen: g_responses,
@@ -589,15 +610,15 @@ pub const FAMILIES: &[Family] = &[
     Family { name: "faulty", props: &["C06"], kinds: &["handler", "error", "panic", "hang"], gen: g_faulty,
         bound: "47 kinds of faulty unit x 5 positions in a message x 7 surrounding good messages; run on one buffer and process (N = 64) with reads of 1, 5 and all bytes" },
     Family { name: "chunking", props: &["C07"], kinds: &["handler", "error", "response", "transport", "args", "panic", "hang"], gen: g_chunking,
-        bound: "29 streams x N in {4,5,8,10,16,21,32,43,64} x all compositions (length <= 12) or single bytes / all 2-splits / fixed sizes 2..=9 / empty reads / 40 sampled compositions; 0, 1, 3 suspensions per transport call; reference = same stream in maximal reads (real code); and, for streams of fitting messages, reference = the real run one message at a time" },
+        bound: "29 streams x N in {4,5,8,10,16,21,32,43,64} x all compositions (length <= 12; thorough tier: <= 16) or single bytes / all 2-splits / fixed sizes 2..=9 / empty reads / 40 sampled compositions; 0, 1, 3 suspensions per transport call; reference = same stream in maximal reads (real code); and, for streams of fitting messages, reference = the real run one message at a time" },
     Family { name: "containers", props: &["C08"], kinds: &["handler", "args", "error", "rest", "panic", "hang"], gen: g_containers,
-        bound: "payloads of 1..=3 bytes from 12 special bytes in strings of both quote kinds and blocks, 6 message shapes (incl. a relative unit behind a compound unit); run whole and process (N = 64) with a read boundary at every position; reference = one run over the whole stream" },
+        bound: "payloads of 1..=3 (thorough tier: 1..=4) bytes from 12 special bytes in strings of both quote kinds and blocks, 6 message shapes (incl. a relative unit behind a compound unit); run whole and process (N = 64) with a read boundary at every position; reference = one run over the whole stream" },
     Family { name: "queue", props: &["C09"], kinds: &["queue", "error", "response", "handler", "panic", "hang"], gen: g_queue,
-        bound: "queue of capacity 3: every sequence of 1..=4 operations from a pool of 12 (22 620); every sequence of 1..=9 operations from {undefined header, handler error, ERRor?, COUNt?} followed by a drain (349 524); every error number -420..=60 raised and read back; each on the logging device and on the device that owns StaticErrorQueue directly" },
+        bound: "queue of capacity 3: every sequence of 1..=4 operations from a pool of 12 (22 620); every sequence of 1..=9 operations from {undefined header, handler error, ERRor?, COUNt?} followed by a drain (349 524); every error number -420..=60 raised and read back; each on the logging device and on the device that owns StaticErrorQueue directly; thorough tier: sequences of up to 10 operations" },
     Family { name: "transport", props: &["C10"], kinds: &["transport", "panic", "hang"], gen: g_transport,
         bound: "29 streams x N in {8,32} x 4 chunkings (one with empty reads) x a transport error at every call index (and none)" },
     Family { name: "lexical", props: &["C11"], kinds: &["handler", "args", "error", "response", "rest", "panic", "hang"], gen: g_lexical,
         bound: "19 templates with 3..=11 white-space slots: every subset of slots x 5 white-space strings (bytes 0-9, 11-32); lower case, long forms, CR LF on every fifth; reference = the un-spaced message (real code); every spelling of every declaration in 4 letter cases against its long upper-case spelling" },
     Family { name: "finality", props: &["C12"], kinds: &["rest", "error", "handler", "panic", "hang"], gen: g_finality,
-        bound: "51 unit texts cut at every byte position, the complete ones continued by 20 tails" },
+        bound: "51 unit texts cut at every byte position, the complete ones continued by 20 tails; thorough tier: every tail and every pair of tails behind every cut" },
 ];
